@@ -66,7 +66,7 @@ def run(ctx):
     q = ctx.quick()
     c.tlc_l1(ctx, "ReteWM.tla", "MC_ReteWM.cfg", workers=4)
     c.tlc_l1(ctx, "ReteWM.tla", "MC_ReteWM_w.cfg", expect_violation="Reach_StaleWouldFire", workers=2)
-    traces(ctx, 800 if q else 20000)
+    traces(ctx, 2400 if q else 30000)
     ctx.cov["rule"] = ("seeded histories of insert / update / retract / reset / fire_all over up to 6 facts of 3 types on a real "
                        "IncrementalEngine with the 4-rule table of ReteWM.tla (three no-loop rules, one without) and per-history action "
                        "effects (none / set the matched fact's field / retract the matched fact); every firing is recorded from inside the "
